@@ -21,6 +21,9 @@ CHECKS = {
  "C06": ("Hypothesis-generated (network, stat arguments, filter, edit history) cases; view and stat objects created once and re-read after every edit, compared with brute-force recomputation and with each other",
          "Exploration: for three classes, ~30 stat objects and both views are held across a generated edit history; after every edit each output form (asdict, aslist, asnumpy, aspandas, multi, stat[id]) is compared with the others, with view order and with values recomputed from members()/memberships(); filters, neighbours, lookup, duplicates, isolates, singletons, empty and maximal are compared with their set definitions.",
          "members()/memberships() are the trusted primitives (their consistency is C01/C02); clustering-valued stats are only checked for mutual consistency here (their values belong to C09/C14).", "DESIGN.md#C06"),
+ "C07": ("Hypothesis-generated (network with nested attributes, derivation, edited side, edit history) cases; equality oracle + deep-snapshot non-interference oracle + fresh-ID oracle",
+         "Exploration: copy / copy-of-copy / pickle / deepcopy / same-class constructor of generated networks of the three classes; equality of observable snapshots, then a generated edit history on one side and in-place mutation of nested attribute values must leave the other side's deep snapshot (members, memberships, attributes, next automatic ID) unchanged; both sides then add edges with automatic IDs.",
+         "Nested-value independence is only claimed for copy() (and holds trivially for pickle); the constructor is checked for structural and top-level attribute independence.", "DESIGN.md#C07"),
  "C05": ("Model-based testing: Hypothesis-generated histories applied step by step to xgi and to reference models transcribed from the docstrings (three classes), metamorphic relations for the degree-preserving moves",
          "Exploration by refinement checking against an executable specification: every op of a generated history is applied to the implementation and to the model (parametric in fresh IDs, prefix semantics for bulk calls) and the observable snapshots are compared after every step, including after rejected calls and their exception types.",
          "The models are my transcription of the documentation; inputs the documentation leaves contradictory are excluded by construction and counted (see assumptions in the evidence).", "DESIGN.md#C05"),
